@@ -267,6 +267,24 @@ fn null_grid_and_pipelines(rep: &Report) {
     let mut ctx = Plain::new();
     let inside = geo(12., 55., 100., 2020.5);
     let outside = geo(30., 30., 7., 2001.);
+    // a definition that leaves out what the operator cannot do without is refused - or, if it is accepted, every tuple
+    // is failed honestly (NaN and not counted); never NaN results that are counted as successes
+    for def in ["omerc lonc=12 latc=55", "omerc", "omerc lonc=12 latc=55 gamma_c=30"] {
+        let Ok(op) = ctx.op(def) else { continue };
+        for dir in [Fwd, Inv] {
+            let dn = if dir == Fwd { "fwd" } else { "inv" };
+            rep.eval(1);
+            let mut d = [Coor4D(inside), Coor4D(geo(13., 54., 0., 2000.))];
+            if dir == Inv {
+                d = [Coor4D([100000., 6100000., 0., 2000.]), Coor4D([0., 0., 0., 2000.])];
+            }
+            let n = ctx.apply(op, dir, &mut d).unwrap_or(usize::MAX);
+            let nans = d.iter().filter(|c| c[0].is_nan() || c[1].is_nan()).count();
+            if n + nans > d.len() {
+                rep.violation("an under-specified definition is accepted, and its NaN results are counted as successes", json!({"def": def, "direction": dn, "count": n, "result": format!("{d:?}")}));
+            }
+        }
+    }
     // with @null a point outside all grids passes unchanged and is counted
     for def in ["gridshift grids=test.datum, @null", "gridshift grids=@null", "gridshift grids=test.geoid, @null", "deformation grids=test.deformation, @null t_epoch=2000"] {
         let Ok(op) = ctx.op(def) else {
